@@ -110,7 +110,8 @@ def main():
     import kio.schema
     from kio.serial import entity_reader, entity_writer
     result = {"modules": {}, "index_error": index_error}
-    for m in pkgutil.walk_packages(kio.schema.__path__, "kio.schema."):
+    pkg_errors = {}
+    for m in pkgutil.walk_packages(kio.schema.__path__, "kio.schema.", onerror=lambda name: pkg_errors.setdefault(name, repr(sys.exc_info()[1]))):
         if m.ispkg or m.name.count(".") < 4:
             continue
         try:
@@ -143,6 +144,7 @@ def main():
             except BaseException as ex:      # noqa: BLE001
                 entry["sample_default_error"] = repr(ex)
         result["modules"][m.name] = entry
+    result["package_import_errors"] = pkg_errors
     try:
         idx = importlib.import_module("kio.schema.index")
         result["index"] = {"api_key_map": {str(k): v for k, v in idx.api_key_map.items()},
